@@ -201,6 +201,6 @@ find_prefix_h!(find_prefix_l0, 0, 10);
 //@ harness: find_prefix_l3 class=F tier=quick props=C06
 //@ clause: same, every 3-character ASCII string
 find_prefix_h!(find_prefix_l3, 3, 10);
-//@ harness: find_prefix_l6 class=F tier=quick props=C06
+//@ harness: find_prefix_l6 class=F tier=thorough props=C06
 //@ clause: same, every 6-character ASCII string
 find_prefix_h!(find_prefix_l6, 6, 12);
